@@ -52,9 +52,9 @@ func (ctx *zzContext) Print(s string) {
 	}
 	ctx.printed += s
 }
-func (ctx *zzContext) ReadLine() (string, app.Error)       { return "", nil }
-func (ctx *zzContext) KlogConfigFolder() app.File          { return app.NewFileOrPanic("/tmp/zz-klog-config") }
-func (ctx *zzContext) Meta() app.Meta                      { return app.Meta{Version: "v0.0", SrcHash: "abc1234"} }
+func (ctx *zzContext) ReadLine() (string, app.Error) { return "", nil }
+func (ctx *zzContext) KlogConfigFolder() app.File    { return app.NewFileOrPanic("/tmp/zz-klog-config") }
+func (ctx *zzContext) Meta() app.Meta                { return app.Meta{Version: "v0.0", SrcHash: "abc1234"} }
 func (ctx *zzContext) Now() gotime.Time {
 	if len(ctx.clock) == 0 {
 		return ctx.now
